@@ -601,8 +601,14 @@ def eval_case(case, out, tmp, ops, pend, model_ok, src=None):
     if escaped:
         out.count("frame:escaped")
     elif len(U["events"]) != len(flat) or len(Upd["events"]) != len(flat):
-        out.mismatch("unfiltered read does not deliver one event per block of the segmentation", case,
-                     [e[:2] for e in U["events"]], [s[1][0] for s in flat])
+        # the reference of the oracle: with a collecting tracker the unfiltered read runs to the end — one event
+        # (delivered block or reported issue) per block of the input.  A reference that stops early, or skips a
+        # block, would make "filtered read = selection of the unfiltered read" vacuous for the missing blocks.
+        R = U if len(U["events"]) != len(flat) else Upd
+        out.fail("the unfiltered read (collecting tracker) does not account for every block of the input: the "
+                 "filtered read cannot be a selection of it", dict(case),
+                 {"events": [e[:2] for e in R["events"]], "ending": R["ending"]},
+                 {"blocks": [s[1][0] for s in flat]}, key="unfiltered_incomplete")
         return
 
     def reported(i):
